@@ -718,8 +718,10 @@ Fixpoint enc_dop (fuel : nat) (d : dop) (v : value) (s : estate) {struct fuel} :
       let s := set_bit (set_cur s (e_origin s + kb)) kbit in
       do s1 <- enc_dop f kd (VInt key) s;
       let s1 := set_bit s1 0 in
+      (* since the fix commit: the multiplexer extends at least to the end of its switch key *)
       do s2 <- match st with
-               | Some sd => enc_dop f sd cv (set_cur s1 (e_origin s1 + bp))
+               | Some sd => do s3 <- enc_dop f sd cv (set_cur s1 (e_origin s1 + bp));
+                            Ok (set_cur s3 (Z.max (e_cur s3) (e_cur s1)))
                | None => Ok s1
                end;
       Ok (set_origin s2 orig_origin)
@@ -939,7 +941,8 @@ Fixpoint dec_dop (fuel : nat) (d : dop) (s : dstate) {struct fuel} : res (value 
         | Some c =>
           (* since the fix commit: the cursor only moves to BYTE-POSITION if the case has content, like the encoder *)
           do r <- match mc_struct c with
-                  | Some sd => dec_dop f sd (dset_cur s1 (d_origin s1 + bp))
+                  | Some sd => do r' <- dec_dop f sd (dset_cur s1 (d_origin s1 + bp));
+                               Ok (fst r', dset_cur (snd r') (Z.max (d_cur (snd r')) (d_cur s1)))
                   | None => Ok (VDict [], s1)
                   end;
           Ok (VList [VStr (mc_name c); fst r], dset_origin (snd r) orig_origin)
